@@ -13,8 +13,11 @@ CLAIMS = {
  "C04": ("theorems: binop_spec (element-wise by NAME for every pair of dim lists, broadcasting), succeeds iff shared coords agree, permutation invariance, scalar/array variants; tie: enumerated dim-list pairs through real code and model + order-free oracle", "5 C04"),
  "C05": ("theorems: int/float/range selector logic (argmin is first minimiser; range = non-empty contiguous run between nearest positions), read=write by shared conversion, pinned defect refuted on a witness; tie: enumerated selectors x axis kinds + specification oracle", "5 C05"),
  "C08": ("theorems: the bracket theorem (unfold -> per-column function -> fold acts on each by-name trace, any rank / position), the same for the axis-index mechanism and named reductions, equality of the two mechanisms, permutation equivariance as a corollary, pinned interp refuted on a witness; tie: every registry function x dim position through real code and model + f(permute x)=permute(f x) and single-trace oracles", "5 C08"),
+ "C09": ("theorems (any field with a primitive N-th root of unity): the model's per-trace transform is the DFT sum, linearity, orthogonality, an on-grid tone peaks at its own bin only, idft(dft x) = x, ifftshift∘fftshift = id for every length (and fftshift twice is not, odd N), the shifted axis coordinate of bin b is ≡ b/(N dt) mod 1/dt for even and odd N, renaming; tie: Lean DFT model vs numpy.fft (twiddles as parameter), exact axis over Q, direct O(n^2) DFT / tone / round-trip oracles for every length of the tier", "5 C09"),
  "C10": ("theorems: ufunc on own operand values with labels kept, reduction by name/position removes exactly that dim and is f of each trace, full reduction returns the scalar; tie: registry x arrangements x axes through real NumPy dispatch and model", "5 C10"),
  "C12": ("theorems (any field): trapezoid rule linear in the data, last cumulative point = definite integral, integrate = per-trace trapezoid with the dimension removed, enhancement reference = 1 and gain invariance; tie: exact Q / Q[i] comparison incl. region lists + hand-written trapezoid, linearity, gain oracles", "5 C12"),
+ "C13": ("theorems over C (Mathlib): |z·cis| = |z|, cis adds, inverse, p0 360-periodic, the angle reduction is the identity on (-360,360), exp(-i pi/2 r) = (-i)^r, placement of the factor per trace via the bracket theorem; pinned sign defect refuted; tie: closed-form factor table vs real phase(), algebraic-law oracles, autophase magnitude/replay/reference-slice oracle. Partial: that the optimiser finds the right phase is not a theorem", "5 C13"),
+ "C15": ("theorems: apodize multiplies every element by the window value at its own position along dim (same window for every trace), unknown kinds rejected over the window table REGENERATED from the source, over R: exponential closed form, first point 1 and never increasing for exponential/gaussian/hann/hamming; tie: the same generic Lean formulas evaluated in Float vs dnplab.math.window, apodize correspondence, window oracles", "5 C15"),
  "C11": ("theorems: every stamping step appends, pipeline_prefix by induction over any pipeline, input untouched (frame); tie: pipelines on objects with 0-12 pre-existing entries + history oracle", "5 C11"),
 }
 NOT_YET = {}
@@ -34,7 +37,7 @@ def main():
     na = [{"property_id": p, "reason": NOT_YET.get(p, "check not built yet in this session (work in progress; Lean proof technique applies, see DESIGN.md section 5)")}
           for p in ALL if p not in CLAIMS]
     m = {"version": 1,
-         "setup_cmd": "cd lean && lake build DnpModel DnpProofs",
+         "setup_cmd": "python3 tools/extract_tables.py && cd lean && lake build DnpModel DnpProofs",
          "hooks": {"guard": "DNPLAB_VERIF", "enable": "no source hooks are needed; every observation point is a public return value, exception, warning or file; checks export DNPLAB_VERIF=1 for uniformity",
                    "baseline_off_cmd": "cd /repo && /venv/bin/python -m pytest -ra -q -p no:cacheprovider --timeout=900 --continue-on-collection-errors",
                    "source_commits": [], "add_only": True},
